@@ -186,6 +186,42 @@ def storage_params():
     return out
 
 
+def cache_params():
+    out = dict(order='UnknownOrder', cleanup='UnknownCleanup')
+    ca = _src('cache.py')
+    fn = _find(ca, 'BaseCache', 'save')
+    if fn is None:
+        return out
+    # flatten: statements of the body, descending into one optional try: block
+    body = list(fn.body)
+    tries = [n for n in body if isinstance(n, ast.Try)]
+    stmts = []
+    for n in body:
+        stmts += n.body if isinstance(n, ast.Try) else [n]
+    pos_meta = pos_data = None
+    for i, n in enumerate(stmts):
+        d = _dump(n)
+        if isinstance(n, ast.With) and 'json' in d and 'dump' in d and 'metadata' in d:
+            pos_meta = i
+        if isinstance(n, ast.Expr) and isinstance(n.value, ast.Call) and _dump(n.value.func).endswith("'save_result', Load())"):
+            pos_data = i
+    if pos_meta is not None and pos_data is not None:
+        out['order'] = 'MetaThenData' if pos_meta < pos_data else 'DataThenMeta'
+    if not tries:
+        out['cleanup'] = 'NoCleanup'
+    elif len(tries) == 1 and len(tries[0].handlers) == 1:
+        h = tries[0].handlers[0]
+        catches_all = h.type is None or (isinstance(h.type, ast.Name) and h.type.id == 'BaseException')
+        deletes = any(isinstance(m, ast.Call) and _dump(m.func).endswith("'delete', Load())") and 'cache_key' in _dump(m)
+                      for m in ast.walk(h))
+        reraises = any(isinstance(m, ast.Raise) and m.exc is None for m in h.body)
+        covers = all(isinstance(n, ast.Try) or not isinstance(n, (ast.With, ast.Expr)) or 'file_handle' not in _dump(n) for n in body)
+        file_handles_inside = 'file_handle' in _dump(ast.Module(body=tries[0].body, type_ignores=[]))
+        if catches_all and deletes and reraises and covers and file_handles_inside:
+            out['cleanup'] = 'CleanupDelete'
+    return out
+
+
 def render():
     sp = sched_params()
     lines = [
@@ -197,6 +233,9 @@ def render():
     vp = values_params()
     lines += ['Definition deser_mode_src : deser_mode := %(deser)s.' % vp,
               'Definition setstate_mode_src : setstate_mode := %(setstate)s.' % vp]
+    cp = cache_params()
+    lines += ['Definition save_order_src : save_order := %(order)s.' % cp,
+              'Definition save_cleanup_src : save_cleanup := %(cleanup)s.' % cp]
     sg = storage_params()
     chars = sg['g_chars']
     lines += ['From Coq Require Import NArith List.',
